@@ -19,6 +19,7 @@ type mixedParams struct {
 	ReadsInTx  bool // allow read ops inside write transactions
 	Fill       bool
 	NoSPop     bool // SPop may return any member, so differential checks do not generate it
+	LongBigSeg bool // with 1 KiB and larger segments up to 3x MaxSteps steps (a sealed segment then holds more than 8 transactions)
 	FaultPct   int  // per cent of multi-call transactions whose Commit gets an injected write error (both twins get the same one)
 	MultiKV    int  // > 1: some transactions consist of 2..MultiKV key/value writes spread over the buckets
 }
@@ -55,7 +56,11 @@ func genMixedCase(p mixedParams) *rapid.Generator[Case] {
 		sKeys := genKeys(keyAlphabetNoSep, 1, 3, 2).Draw(t, "skeys")
 		structs := p.Structs && c.Cfg.Mode == 0
 		gop := genMixedOp(structs, buckets, kvKeys, sKeys, p.Fill)
-		n := rapid.IntRange(1, p.MaxSteps).Draw(t, "nsteps")
+		maxSteps := p.MaxSteps
+		if p.LongBigSeg && c.Cfg.Seg >= 1024 {
+			maxSteps *= 3
+		}
+		n := rapid.IntRange(1, maxSteps).Draw(t, "nsteps")
 		for i := 0; i < n; i++ {
 			r := rapid.IntRange(0, 99).Draw(t, "stepkind")
 			switch {
